@@ -717,6 +717,8 @@ package participle
 //@   loop 3 decreases len(p.mappers) - rangeindex
 //@   loop 4 invariant -1 <= rangeindex && rangeindex < len(mapper.symbols) && mappers != nil
 //@   loop 4 decreases len(mapper.symbols) - rangeindex
+//@   loop 5 invariant -1 <= rangeindex && rangeindex < len(p.unionDefs)
+//@   loop 5 decreases len(p.unionDefs) - rangeindex
 
 // The combined mapper built by Build: mappers registered for all tokens first, then those registered
 // for the token's own type, each applied once, in registration order, stopping at the first error.
